@@ -42,6 +42,7 @@ class Trace:
         self.step_ys = []        # solver.y after each step (copy, before the GBS write-back)
         self.y_start = None
         self.ctor = None
+        self.start = None
         self.error = None
         self.F_returned = None
 
@@ -100,6 +101,12 @@ class Recorder:
         """Run one update under recording. Returns (trace, F_new or None)."""
         tr = Trace()
         self.current = tr
+        try:        # what the update starts from (for validate_problems)
+            tr.start = dict(F=np.array(F, dtype=float).copy(), o=np.array(mineral.orientations[-1], dtype=float).copy(),
+                            f=np.array(mineral.fractions[-1], dtype=float).copy(),
+                            t0=float(pathline[0]), t1=float(pathline[1]), user_kw=sorted(k for k in kw if k != "get_regime"))
+        except Exception:  # noqa: BLE001  (malformed arguments of a negative test)
+            tr.start = None
         try:
             Fn = mineral.update_orientations(params, F, get_L, pathline, **kw)
             tr.F_returned = np.array(Fn, dtype=float).copy()
@@ -326,19 +333,17 @@ def snapshot_valid(O, f, n):
 # are tied to the same model by Inst_minerals_drv.lsoda_args_inst_*; this run covers every grain count.)
 # --------------------------------------------------------------------------
 def validate_problems(chk, hist, bad, user_kw=()):
-    sc, m = hist["sc"], hist["mineral"]
-    n = sc["n"]
+    sc = hist["sc"]
     lines, meta = [], []
     for u in hist["updates"]:
         tr = u["trace"]
-        if tr.ctor is None:
+        st = getattr(tr, "start", None)
+        if tr.ctor is None or st is None or st["user_kw"]:
+            continue            # LSODA never constructed / caller supplied its own solver options
+        n = int(st["f"].shape[0])
+        if st["o"].shape != (n, 3, 3) or st["F"].shape != (3, 3):
             continue
-        k = u["index"]
-        F_in = hist["F_hist"][k] if k < len(hist["F_hist"]) else None
-        if F_in is None:
-            continue
-        fl = list(np.asarray(F_in, dtype=float).reshape(-1)) + list(np.asarray(m.orientations[k]).reshape(-1)) \
-            + list(np.asarray(m.fractions[k])) + [float(u["t0"]), float(u["t1"])]
+        fl = list(st["F"].reshape(-1)) + list(st["o"].reshape(-1)) + list(st["f"]) + [st["t0"], st["t1"]]
         lines.append(common.model_line("problem", [n], fl))
         meta.append((u, tr))
     if not lines:
@@ -349,24 +354,27 @@ def validate_problems(chk, hist, bad, user_kw=()):
         chk.cov["lsoda_problems_compared"] = chk.cov.get("lsoda_problems_compared", 0) + 1
         extra = sorted(set(kw) - {"atol", "rtol", "first_step", "lband", "uband"} - set(user_kw))
         if extra:
-            bad.append((sc, f"update {u['index']}: LSODA constructed with unmodelled keyword(s) {extra}"))
+            bad.append((sc, f"update {u.get('index')}: LSODA constructed with unmodelled keyword(s) {extra}"))
         if r[0] != "OK":
-            bad.append((sc, f"update {u['index']}: problem model returned {r}"))
+            bad.append((sc, f"update {u.get('index')}: problem model returned {r}"))
             continue
         try:
             impl = [float(tr.ctor["t0"])] + list(np.asarray(tr.y_start, dtype=float)) + [float(tr.ctor["t_bound"])] \
                 + list(np.broadcast_to(np.asarray(kw["atol"], dtype=float), tr.y_start.shape)) \
                 + [float(kw["rtol"]), float(kw["first_step"])]
         except Exception as e:  # noqa: BLE001
-            bad.append((sc, f"update {u['index']}: LSODA constructor arguments not of the modelled form: {e}"))
+            bad.append((sc, f"update {u.get('index')}: LSODA constructor arguments not of the modelled form: {e}"))
             continue
+        n = int(tr.start["f"].shape[0])
         if kw.get("lband") is not None or kw.get("uband") is not None:
             if n <= 4632:
-                bad.append((sc, f"update {u['index']}: banded Jacobian requested for {n} grains"))
+                bad.append((sc, f"update {u.get('index')}: banded Jacobian requested for {n} grains"))
         if impl != r[1]:
             okc, idx = common.vec_close(impl, r[1], rtol=0.0, atol=0.0)
+            if okc:             # NaN entries compare unequal as Python floats but are the same value
+                continue
             names = "t0 / y0 / t_bound / atol / rtol / first_step"
-            bad.append((sc, f"update {u['index']}: LSODA's constructor arguments ({names}) differ from the model at flat index "
+            bad.append((sc, f"update {u.get('index')}: LSODA's constructor arguments ({names}) differ from the model at flat index "
                             f"{idx}: {impl[idx] if idx is not None and idx >= 0 else len(impl)!r} vs "
                             f"{r[1][idx] if idx is not None and idx >= 0 else len(r[1])!r}"))
 
